@@ -29,6 +29,8 @@ type Val struct {
 	closure *Closure
 	fn      *ssa.Function // static function value
 	origin  *Place        // for loaded slice values: where it was loaded from (write-back of element stores)
+	backing *Place        // for slice values: the heap place whose slice header shares this backing array (provenance; survives assignment to locals and parameter passing)
+	resl    *Val          // for s[a:b] with an explicit high bound: the slice it was cut from (append may overwrite its elements)
 	isZeroArr bool
 	elems      []string
 	elemsKnown bool
